@@ -226,3 +226,20 @@ mod weibull;
 mod zeta;
 mod ziggurat_tables;
 mod zipf;
+
+/// Verification hooks (only with `--cfg rand_distr_verif`): read-only access to the
+/// private ziggurat tables.
+#[cfg(rand_distr_verif)]
+#[doc(hidden)]
+pub mod verif_hooks {
+    use crate::ziggurat_tables as zt;
+
+    /// The ziggurat tables `(x, f, r)` of the normal (`which == 0`) or exponential sampler.
+    pub fn zig_tables(which: usize) -> (&'static [f64; 257], &'static [f64; 257], f64) {
+        if which == 0 {
+            (&zt::ZIG_NORM_X, &zt::ZIG_NORM_F, zt::ZIG_NORM_R)
+        } else {
+            (&zt::ZIG_EXP_X, &zt::ZIG_EXP_F, zt::ZIG_EXP_R)
+        }
+    }
+}
